@@ -169,28 +169,24 @@ pub fn cli(args: &[String]) -> i32 {
         std::fs::write(&p, txt).unwrap_or_else(|e| harness_error(&format!("write {p}: {e}")));
     }
 
-    let mut violations = 0;
-    let mut replay_path = None;
-    if let Some((k, rs, sc, v)) = fail {
-        violations = 1;
-        eprintln!("run {k} (run_seed {rs}) violated C12: [{}] {}", v.class, v.detail);
-        let min = stream::minimise(&sc, &v.class);
-        let mo = run_caught(&min);
-        let (final_sc, final_v, minimised) = match mo.violation {
-            Some(mv) if mv.class == v.class => (min, mv, true),
-            _ => (sc.clone(), v.clone(), false),
-        };
-        let path = format!("{replay_dir}/C12-stream-{seed}-{k}.json");
+    // A violation is reported (replay file, result file, VIOLATION line) before it is minimised:
+    // whatever happens to the minimiser, the finding stands.
+    let violations = if fail.is_some() { 1 } else { 0 };
+    let replay_path = fail.as_ref().map(|(k, ..)| format!("{replay_dir}/C12-stream-{seed}-{k}.json"));
+    let write_replay = |path: &str, k: u64, rs: u64, orig: &Scenario, fsc: &Scenario, fv: &Violation, minimised: bool| {
         let doc = json!({
             "engine": "stream", "property": "C12", "verif_seed": seed, "run": k, "run_seed": rs,
-            "class": final_v.class, "detail": final_v.detail, "minimised": minimised,
-            "original_events": sc.events.len(), "original_patterns": sc.spec.patterns.len(),
-            "scenario": final_sc,
+            "class": fv.class, "detail": fv.detail, "minimised": minimised,
+            "original_events": orig.events.len(), "original_patterns": orig.spec.patterns.len(),
+            "scenario": fsc,
         });
         std::fs::create_dir_all(&replay_dir).ok();
-        std::fs::write(&path, serde_json::to_string_pretty(&doc).unwrap())
+        std::fs::write(path, serde_json::to_string_pretty(&doc).unwrap())
             .unwrap_or_else(|e| harness_error(&format!("write {path}: {e}")));
-        replay_path = Some(path);
+    };
+    if let (Some((k, rs, sc, v)), Some(path)) = (&fail, &replay_path) {
+        eprintln!("run {k} (run_seed {rs}) violated C12: [{}] {}", v.class, v.detail);
+        write_replay(path, *k, *rs, sc, sc, v, false);
     }
 
     let wall = t0.elapsed().as_secs_f64();
@@ -222,8 +218,25 @@ pub fn cli(args: &[String]) -> i32 {
         "stream: {total} runs ({nsweep} sweep) in {wall:.1}s, {} distinct scenarios, {} non-trivial, {} interleavings",
         scen.len(), nontriv.len(), traces.len()
     );
-    if let Some(p) = replay_path {
-        println!("VIOLATION property=C12 replay={p}");
+    if let (Some((k, rs, sc, v)), Some(path)) = (&fail, &replay_path) {
+        println!("VIOLATION property=C12 replay={path}");
+        use std::io::Write;
+        let _ = std::io::stdout().flush();
+        let r = std::panic::catch_unwind(std::panic::AssertUnwindSafe(|| {
+            let min = stream::minimise(sc, &v.class);
+            let mo = run_caught(&min);
+            (min, mo)
+        }));
+        match r {
+            Ok((min, mo)) => {
+                if let Some(mv) = mo.violation {
+                    if mv.class == v.class {
+                        write_replay(path, *k, *rs, sc, &min, &mv, true);
+                    }
+                }
+            }
+            Err(_) => eprintln!("note: the minimiser failed; the replay file holds the original scenario"),
+        }
         return 1;
     }
     0
